@@ -3,7 +3,7 @@ from __future__ import annotations
 
 import itertools
 import random
-from typing import Any, List, Optional
+from typing import Any, Dict, List, Optional
 
 from vf import common as C
 
@@ -44,6 +44,20 @@ def jobj(pool, k):
     return [k, pool[k].id]
 
 
+class Stores(list):
+    """the stores of one history, plus the multiplexers the application keeps on them (created once, used all along)"""
+    def __init__(self, it):
+        super().__init__(it)
+        self.muxes: Dict[Any, Any] = {}
+
+    def mux(self, order):
+        from basyx.aas import model
+        key = tuple(order)
+        if key not in self.muxes:
+            self.muxes[key] = model.ObjectProviderMultiplexer([self[j] for j in order])
+        return self.muxes[key]
+
+
 def impl_step(stores, pool, op) -> Any:
     from basyx.aas import model
     k = op[0]
@@ -52,7 +66,7 @@ def impl_step(stores, pool, op) -> Any:
     uid = {id(o): i for i, o in enumerate(pool)}
     try:
         if k == "mux":
-            mux = model.ObjectProviderMultiplexer([stores[j] for j in op[1]])
+            mux = stores.mux(op[1])
             return ["obj", uid[id(mux.get_identifiable(op[2]))]]
         st = stores[op[1]]
         if k == "add":
@@ -200,7 +214,7 @@ def correspond(ctx: C.Ctx, cov: C.Coverage) -> List[C.Disagreement]:
     obs = observe(2)
     for si, seq in enumerate(seqs):
         lines.append(["reset"]); impl.append(["reset"]); index.append((si, -1))
-        stores = [model.DictObjectStore(), model.DictObjectStore(), model.DictObjectStore()]
+        stores = Stores([model.DictObjectStore(), model.DictObjectStore(), model.DictObjectStore()])
         nontriv = False
         for oi, op in enumerate(seq):
             mop = op
@@ -261,7 +275,7 @@ def check_sequence(seq) -> Optional[C.Failing]:
     """Reference: a dict id -> pool index, per store."""
     from basyx.aas import model
     pool = make_pool()
-    stores = [model.DictObjectStore(), model.DictObjectStore(), model.DictObjectStore()]
+    stores = Stores([model.DictObjectStore(), model.DictObjectStore(), model.DictObjectStore()])
     ref = [dict(), dict(), dict()]
     for oi, op in enumerate(seq):
         prefix = seq[: oi + 1]
@@ -329,13 +343,15 @@ def check_sequence(seq) -> Optional[C.Failing]:
             except Exception as e:
                 return C.Failing("store:view:raises", repr(e), prefix)
         for order in ([0, 1], [1, 0]):
-            mux = model.ObjectProviderMultiplexer([stores[j] for j in order])
+            mux = stores.mux(order)          # a long-lived multiplexer: the answer may not depend on earlier lookups
             for i in IDS:
                 want = next((ref[j][i] for j in order if i in ref[j]), None)
                 try:
                     got = next(j for j, p in enumerate(pool) if p is mux.get_identifiable(i))
                 except KeyError:
                     got = None
+                if (mux.get(i) is None) != (want is None):
+                    return C.Failing("store:mux:get-default", f"multiplexer{order}.get({i!r}) disagrees with get_identifiable", prefix)
                 if got != want:
                     return C.Failing("store:mux:first-hit", f"multiplexer{order} for {i!r} gave {got}, first knowing provider holds {want}", prefix, got, want)
     return None
